@@ -12,6 +12,7 @@ use crate::security::user_name_key_from_user_name;
 use async_std::net::TcpStream;
 use std::fs::File;
 use std::io::Write;
+use std::io::{Seek, SeekFrom};
 use std::thread;
 
 use futures::channel::mpsc::{channel, Receiver, Sender};
@@ -614,6 +615,13 @@ pub async fn start_replication_thread(
 ) {
     let mut op_log_stream = Oplog::get_log_file_append_mode();
     let mut invalidate_stream = get_invalidate_file_write_mode();
+    if !dbs.is_oplog_valid.load(Ordering::SeqCst) {
+        // Started from an invalid oplog: the start removed the flag file, and an empty flag file
+        // reads as valid. Keep it invalid on disk until the keys are snapshotted again,
+        // otherwise a restart before that trusts key ids that were never saved
+        invalidate_stream.seek(SeekFrom::Start(0)).unwrap();
+        invalidate_stream.write(&[0]).unwrap();
+    }
     // Loop replicating messages
     loop {
         let message_opt = replication_receiver.next().await;
